@@ -275,6 +275,28 @@ def o_c15(meta, ans, ctx):
     return None
 
 
+def o_c19(meta, ans, ctx):
+    if meta.get('kind') != 'cursor':
+        return None
+    if not ans.startswith('cursor '):
+        return 'shape: ' + ans[:40]
+    parts = ans[len('cursor '):].split(' || ')
+    if len(parts) != 2:
+        return 'shape: unparsable answer'
+    al, st = parts
+    if 'panic' in al.split(' | ')[0].split(','):
+        return 'panic: the aligned cursor panicked'
+    if al.endswith('ptrbad'):
+        return 'address: storage not aligned to the alignment type'
+    if al.rsplit(' ', 1)[0] != st.rsplit(' ', 1)[0]:
+        ao, so = al.split(' | ')[0].split(','), st.split(' | ')[0].split(',')
+        for k, (x, y) in enumerate(zip(ao, so)):
+            if x != y:
+                return 'result: operation %d returned %s, the standard cursor %s' % (k, x[:40], y[:40])
+        return 'state: final contents / length / position differ from the standard cursor'
+    return None
+
+
 SPECS = {
     'C01': CaseSpec(o_c01, 'serialize each generated value, deserialize_full the bytes; generated types x boundary-biased values.'),
     'C02': CaseSpec(o_c02, 'serialize each generated value, deserialize_eps from a 128-aligned (and 64 mod 128) buffer and deserialize_full the same bytes.'),
@@ -282,5 +304,6 @@ SPECS = {
     'C10': CaseSpec(o_c10, 'every single-bit flip of the 29 fixed header bytes (all 232 for a quarter of the types in the quick tier, a sample of 48 for the others), the reversed cookie, minor/major/usize boundary values; both modes.'),
     'C11': CaseSpec(o_c11, 'every cut point k in [0,len) of the streams of generated values (streams up to 400 bytes in the quick tier); both modes.'),
     'C12': CaseSpec(o_c12, 'every base residue 0..127 (all for half of the types with aligned blocks in the quick tier, 16 residues for the rest) x generated values; block list taken from the real schema.'),
+    'C19': CaseSpec(o_c19, 'every history of length <= 3 (quick; <= 4 thorough) over an alphabet of 12 (14) operations on AlignedCursor<A16>, plus long random histories for A16/A32/A64; the same history on std::io::Cursor<Vec<u8>>; both models tied.'),
     'C15': CaseSpec(o_c15, 'every tag position of every generated value (found through the real schema): byte tags set to 11 boundary values or all 256, enum tag words set to boundary values; both modes.'),
 }
